@@ -20,6 +20,8 @@ def specs(tier):
          ("rz", gridlab.tokamak_spec("cdn", fpol="linear", options={"orthogonal": False}, extract=ex)),  # non-orthogonal
          ("rz", gridlab.tokamak_spec("lsn", fpol="linear", options={"cap_Bp_ylow_xpoint": True}, extract=ex)),  # option that touches Bpxy
          ("rz", gridlab.tokamak_spec("lsn", fpol="linear", options={"psi_interpolation_method": "dct"}, extract=ex)),  # the other interpolant
+         ("rz", gridlab.tokamak_spec("lsn", fpol="linear", options={"reverse_Bt": True}, extract=ex)),  # sign options with a varying fpol
+         ("rz", gridlab.tokamak_spec("ldn", fpol="linear", options={"reverse_current": True}, extract=ex)),
          ("xy", gridlab.tokamak_spec("lsn", fpol="linear", options={"curvature_type": "curl(b/B) with x-y derivatives", "nx_core": 4, "nx_sol": 4,
                                                                    "ny_sol": 16, "ny_inner_divertor": 6, "ny_outer_divertor": 6}, extract=ex)),
          ("xy", gridlab.tokamak_spec("ldn", fpol="linear", options={"curvature_type": "curl(b/B) with x-y derivatives", "nx_core": 4, "nx_sol": 4,
